@@ -1068,3 +1068,380 @@ Example cstream_mvcc_tomb_ex :
   (ssorted l3 = true /\ tomb_dropped 5 false (Examples.Wt ka 10) l3 = false /\
    fst (run_stream 5 false no_filter l3) = [Examples.Wt ka 10]).
 Proof. vm_compute. repeat split; reflexivity. Qed.
+
+(** * 6. The filter is never consulted on a tombstone (result 5) *)
+
+Lemma apply_filter_ext flt flt' e :
+  (is_tomb e = false -> flt e = flt' e) -> apply_filter flt e = apply_filter flt' e.
+Proof.
+  unfold apply_filter. destruct (is_tomb e); [reflexivity|].
+  intros H. rewrite (H eq_refl). reflexivity.
+Qed.
+
+(** sharper form: agreement is only needed on the non-tombstone entries of the input *)
+Theorem cstream_filter_domain_in W evict flt flt' : forall l dr,
+  (forall e, In e l -> is_tomb e = false -> flt e = flt' e) ->
+  cstream W evict flt dr l = cstream W evict flt' dr l.
+Proof.
+  induction l as [|e rest IH]; intros dr H; [reflexivity|].
+  assert (forall dr', cstream W evict flt dr' rest = cstream W evict flt' dr' rest) as IH'.
+  { intros dr'. apply IH. intros x HI. apply H. now right. }
+  rewrite !cstream_cons. rewrite (apply_filter_ext flt flt' e) by (apply H; now left).
+  destruct (draining dr e); [now rewrite IH'|].
+  destruct (apply_filter flt' e) as [[h|] lg]; now rewrite IH'.
+Qed.
+
+Theorem cstream_filter_domain W evict flt flt' dr l :
+  (forall e, is_tomb e = false -> flt e = flt' e) ->
+  cstream W evict flt dr l = cstream W evict flt' dr l.
+Proof. intros H. apply cstream_filter_domain_in. auto. Qed.
+
+Example cstream_filter_domain_ex :
+  let f1 := fun e : entry => if is_tomb e then Drop else Replace Ind [1] in
+  let f2 := fun e : entry => Replace Ind [1] in
+  let l := [Examples.T Examples.ka 9; Examples.V Examples.ka 8 [3]; Examples.Wt Examples.kb 7] in
+  (forall e, is_tomb e = false -> f1 e = f2 e) /\
+  run_stream 0 false f1 l = run_stream 0 false f2 l /\
+  run_stream 0 false f1 l
+  = ([Examples.T Examples.ka 9; mkE Examples.ka 8 Ind [1]; Examples.Wt Examples.kb 7],
+     [Examples.V Examples.ka 8 [3]]).
+Proof.
+  split; [|vm_compute; auto]. intros e H. cbv beta. rewrite H. reflexivity.
+Qed.
+
+(** * 7. Accounting: every input entry ends in exactly one place (result 6) *)
+
+(** [h] is the filter's replacement of some logged non-tombstone entry *)
+Definition is_repl (flt : entry -> verdict) (log : list entry) (h : entry) : Prop :=
+  exists e t v, In e log /\ is_tomb e = false /\ flt e = Replace t v /\
+                h = mkE (ukey e) (seq e) t v.
+
+Lemma is_repl_mono flt log log' h :
+  incl log log' -> is_repl flt log h -> is_repl flt log' h.
+Proof. intros I (e & t & v & A & B). exists e, t, v. split; [apply I; exact A | exact B]. Qed.
+
+Lemma perm_mid (e : entry) l a b : Permutation l (a ++ b) -> Permutation (e :: l) (a ++ e :: b).
+Proof. apply Permutation_cons_app. Qed.
+
+Lemma account_gen W evict flt : forall l dr,
+  exists kept silent repl,
+    Permutation l (kept ++ logs W evict flt dr l ++ silent) /\
+    forallb is_tomb silent = true /\
+    Permutation (outs W evict flt dr l) (kept ++ repl) /\
+    Forall (is_repl flt (logs W evict flt dr l)) repl /\
+    subseq kept l.
+Proof.
+  induction l as [|e rest IH]; intros dr.
+  - exists [], [], []. cbn. repeat split; auto. constructor.
+  - rewrite outs_cons, logs_cons.
+    (* the three ways an entry can be logged without (or with) a replacement *)
+    assert (forall dr', exists kept silent repl,
+      Permutation (e :: rest) (kept ++ (e :: logs W evict flt dr' rest) ++ silent) /\
+      forallb is_tomb silent = true /\
+      Permutation (outs W evict flt dr' rest) (kept ++ repl) /\
+      Forall (is_repl flt (e :: logs W evict flt dr' rest)) repl /\
+      subseq kept (e :: rest)) as Hlogged.
+    { intros dr'. destruct (IH dr') as (kept & silent & repl & P1 & TS & P2 & FR & SK).
+      exists kept, silent, repl. repeat split; auto.
+      - cbn [app]. now apply perm_mid.
+      - eapply Forall_impl; [|exact FR]. intros h. apply is_repl_mono. intros x; now right.
+      - now apply subseq_skip. }
+    destruct (draining dr e); [apply Hlogged|].
+    destruct (apply_filter_cases flt e) as [AF|[(_ & _ & AF)|(NT & t & v & Hf & AF)]];
+      rewrite AF; cbn [fst snd app].
+    + (* kept as is, or silently removed (then it is a tombstone) *)
+      destruct (IH (snd (emit_dec W evict e rest)))
+        as (kept & silent & repl & P1 & TS & P2 & FR & SK).
+      destruct (fst (emit_dec W evict e rest)) eqn:B; unfold olist; cbn [app].
+      * exists (e :: kept), silent, repl. repeat split; auto.
+        -- cbn [app]. now constructor.
+        -- cbn [app]. now constructor.
+        -- now apply subseq_keep.
+      * exists kept, (e :: silent), repl. repeat split; auto.
+        -- rewrite app_assoc. apply perm_mid. now rewrite <- app_assoc.
+        -- cbn [forallb]. rewrite TS, andb_true_r.
+           destruct (is_tomb e) eqn:TB; [reflexivity|].
+           rewrite (emit_dec_nontomb W evict e rest TB) in B. discriminate.
+        -- now apply subseq_skip.
+    + apply Hlogged.
+    + (* replaced: logged; the replacement is emitted or silently removed *)
+      set (h := mkE (ukey e) (seq e) t v) in *.
+      destruct (Hlogged (snd (emit_dec W evict h rest)))
+        as (kept & silent & repl & P1 & TS & P2 & FR & SK).
+      destruct (fst (emit_dec W evict h rest)); unfold olist; cbn [app].
+      * exists kept, silent, (h :: repl). repeat split; auto.
+        -- now apply perm_mid.
+        -- constructor; [|exact FR]. exists e, t, v. repeat split; auto. now left.
+      * exists kept, silent, repl. repeat split; auto.
+Qed.
+
+(** Every input entry ends in exactly one of three places: [kept] (emitted unchanged),
+    the drop-callback [log], or [silent] (removed without a callback) -- and only
+    tombstones are ever removed silently.  The output consists of the kept entries and
+    of replacements [mkE (ukey e) (seq e) t v] of logged non-tombstone entries [e] with
+    [flt e = Replace t v].  (Holds for every input; sortedness is not needed.) *)
+Theorem cstream_log_exact : forall W evict flt l out log,
+  run_stream W evict flt l = (out, log) ->
+  exists kept silent repl,
+    Permutation l (kept ++ log ++ silent) /\
+    forallb is_tomb silent = true /\
+    Permutation out (kept ++ repl) /\
+    Forall (is_repl flt log) repl /\
+    subseq kept l.
+Proof.
+  intros W evict flt l out log HR. apply run_stream_outs in HR. destruct HR as [-> ->].
+  apply account_gen.
+Qed.
+
+Lemma vtype_eq_dec (a b : vtype) : {a = b} + {a <> b}.
+Proof. decide equality. Defined.
+
+Lemma entry_eq_dec (a b : entry) : {a = b} + {a <> b}.
+Proof.
+  decide equality; try apply (list_eq_dec N.eq_dec); try apply N.eq_dec;
+    try apply vtype_eq_dec.
+Defined.
+
+Lemma NoDup_app_r' {A} (a b : list A) : NoDup (a ++ b) -> NoDup b.
+Proof.
+  induction a as [|y a IH]; intros ND; [exact ND|].
+  cbn [app] in ND. inversion ND; subst. auto.
+Qed.
+
+Lemma NoDup_app_l' {A} (a b : list A) : NoDup (a ++ b) -> NoDup a.
+Proof.
+  induction a as [|y a IH]; intros ND; [constructor|].
+  cbn [app] in ND. inversion ND as [|? ? NI ND']; subst. constructor; auto.
+  intros HI. apply NI. apply in_or_app. now left.
+Qed.
+
+Lemma NoDup_app_disj (a b : list entry) x : NoDup (a ++ b) -> In x a -> In x b -> False.
+Proof.
+  induction a as [|y a IH]; intros ND HA HB; [contradiction|].
+  cbn [app] in ND. inversion ND as [|? ? NI ND']; subst.
+  destruct HA as [->|HA].
+  - apply NI. apply in_or_app. now right.
+  - eauto.
+Qed.
+
+(** the consequence needed for blob GC: a non-tombstone input entry is either emitted
+    unchanged and never reported, or reported exactly once -- and then anything emitted
+    under its internal key is the filter's replacement of it *)
+Theorem cstream_log_exact_nontomb : forall W evict flt l out log, ssorted l = true ->
+  run_stream W evict flt l = (out, log) ->
+  forall e, In e l -> is_tomb e = false ->
+  (In e out /\ ~ In e log) \/
+  (count_occ entry_eq_dec log e = 1%nat /\
+   forall h, In h out -> ukey h = ukey e -> seq h = seq e ->
+             exists t v, flt e = Replace t v /\ h = mkE (ukey e) (seq e) t v).
+Proof.
+  intros W evict flt l out log HS HR e HI NT.
+  destruct (cstream_log_exact _ _ _ _ _ _ HR) as (kept & silent & repl & P1 & TS & P2 & FR & _).
+  pose proof (Permutation_NoDup P1 (ssorted_NoDup _ HS)) as ND.
+  pose proof (ssorted_uniq _ HS) as U.
+  assert (forall x, In x kept -> In x l) as KL.
+  { intros x Hx. eapply Permutation_in; [apply Permutation_sym; exact P1|].
+    apply in_or_app. now left. }
+  assert (forall x, In x log -> In x l) as LL.
+  { intros x Hx. eapply Permutation_in; [apply Permutation_sym; exact P1|].
+    apply in_or_app. right. apply in_or_app. now left. }
+  pose proof (Permutation_in _ P1 HI) as HI'.
+  apply in_app_or in HI'. destruct HI' as [HK|HI'].
+  - left. split.
+    + eapply Permutation_in; [apply Permutation_sym; exact P2|]. apply in_or_app. now left.
+    + intros HL. eapply (NoDup_app_disj _ _ e ND HK). apply in_or_app. now left.
+  - apply in_app_or in HI'. destruct HI' as [HL|HSil].
+    + right. split.
+      * apply NoDup_count_occ'; [|exact HL].
+        eapply NoDup_app_l'. eapply NoDup_app_r'. exact ND.
+      * intros h Hh Hk Hs. pose proof (Permutation_in _ P2 Hh) as Hh'.
+        apply in_app_or in Hh'. destruct Hh' as [Hh'|Hh'].
+        -- exfalso. assert (h = e) as -> by (apply U; auto).
+           eapply (NoDup_app_disj _ _ e ND Hh'). apply in_or_app. now left.
+        -- rewrite Forall_forall in FR. destruct (FR h Hh') as (e0 & t & v & A & B & C & D).
+           assert (e0 = e) as ->.
+           { apply U; auto; rewrite D in Hk, Hs; cbn in Hk, Hs; auto. }
+           exists t, v. auto.
+    + exfalso. rewrite forallb_forall in TS. rewrite (TS e HSil) in NT. discriminate.
+Qed.
+
+(** counting form, for arbitrary (also unsorted, also duplicate-carrying) input *)
+Theorem cstream_log_count : forall W evict flt l out log,
+  run_stream W evict flt l = (out, log) ->
+  exists kept, subseq kept l /\ incl kept out /\
+  forall e, is_tomb e = false ->
+    count_occ entry_eq_dec l e
+    = (count_occ entry_eq_dec kept e + count_occ entry_eq_dec log e)%nat.
+Proof.
+  intros W evict flt l out log HR.
+  destruct (cstream_log_exact _ _ _ _ _ _ HR) as (kept & silent & repl & P1 & TS & P2 & _ & SK).
+  exists kept. split; [exact SK|]. split.
+  - intros x Hx. eapply Permutation_in; [apply Permutation_sym; exact P2|].
+    apply in_or_app. now left.
+  - intros e NT.
+    rewrite (proj1 (Permutation_count_occ entry_eq_dec _ _) P1 e), !count_occ_app.
+    assert (count_occ entry_eq_dec silent e = 0%nat) as ->.
+    { apply count_occ_not_In. intros HI. rewrite forallb_forall in TS.
+      rewrite (TS e HI) in NT. discriminate. }
+    lia.
+Qed.
+
+Example cstream_log_exact_ex :
+  let ka := Examples.ka in
+  let flt := fun e : entry => if seq e =? 9 then Replace Ind [7] else Keep in
+  let l := [Examples.V ka 9 [1]; Examples.V ka 8 [2]; Examples.Wt ka 7; Examples.V ka 3 [3];
+            Examples.V ka 2 [4]; Examples.T Examples.kb 5] in
+  ssorted l = true /\
+  run_stream 5 true flt l
+  = ([mkE ka 9 Ind [7]; Examples.V ka 8 [2]],
+     [Examples.V ka 9 [1]; Examples.V ka 3 [3]; Examples.V ka 2 [4]]).
+  (* kept = [V a 8]; log as shown; silent = [W a 7; T b 5]; repl = [Ind a 9] *)
+Proof. vm_compute. auto. Qed.
+
+(** * 8. The merge of several sources *)
+
+Lemma ins_sorted_perm e l : Permutation (ins_sorted e l) (e :: l).
+Proof.
+  induction l as [|x l IH]; cbn [ins_sorted]; [apply Permutation_refl|].
+  destruct (ikey_ltb x e || ikey_eqb x e); [|apply Permutation_refl].
+  eapply perm_trans; [apply perm_skip; exact IH | apply perm_swap].
+Qed.
+
+Lemma fold_ins_perm src acc : Permutation (fold_right ins_sorted acc src) (src ++ acc).
+Proof.
+  induction src as [|e s IH]; cbn [fold_right app]; [apply Permutation_refl|].
+  eapply perm_trans; [apply ins_sorted_perm | apply perm_skip; exact IH].
+Qed.
+
+Theorem merge_sorted_perm srcs : Permutation (merge_sorted srcs) (concat srcs).
+Proof.
+  induction srcs as [|s r IH]; [apply Permutation_refl|].
+  unfold merge_sorted in *. cbn [fold_right concat].
+  eapply perm_trans; [apply fold_ins_perm | apply Permutation_app_head; exact IH].
+Qed.
+
+(** the internal key *)
+Definition ik (e : entry) : key * N := (ukey e, seq e).
+
+Lemma ins_sorted_ssorted e l :
+  ssorted l = true -> (forall x, In x l -> ik x <> ik e) -> ssorted (ins_sorted e l) = true.
+Proof.
+  induction l as [|x l IH]; intros HS HD; [reflexivity|].
+  cbn [ins_sorted]. destruct (ikey_ltb x e) eqn:L; cbn [orb].
+  - apply ssorted_cons. split.
+    + apply Forall_forall. intros y Hy.
+      apply (Permutation_in _ (ins_sorted_perm e l)) in Hy. destruct Hy as [<-|Hy]; [exact L|].
+      eapply ssorted_head_lt; eauto.
+    + apply IH; [eapply ssorted_tail; eauto|]. intros y Hy. apply HD. now right.
+  - destruct (ikey_eqb x e) eqn:Q.
+    + exfalso. apply ikey_eqb_spec in Q. destruct Q as [Qk Qs].
+      apply (HD x (or_introl eq_refl)). unfold ik. congruence.
+    + pose proof (ikey_total _ _ L Q) as L'. apply ssorted_cons. split; [|exact HS].
+      constructor; [exact L'|]. apply Forall_forall. intros y Hy.
+      eapply ikey_ltb_trans; [exact L'|]. eapply ssorted_head_lt; eauto.
+Qed.
+
+Lemma fold_ins_ssorted src : forall acc,
+  ssorted acc = true -> NoDup (map ik (src ++ acc)) ->
+  ssorted (fold_right ins_sorted acc src) = true.
+Proof.
+  induction src as [|e s IH]; intros acc HS ND; [exact HS|].
+  cbn [fold_right app map] in *. inversion ND as [|? ? NI ND']; subst.
+  apply ins_sorted_ssorted; [apply IH; auto|].
+  intros x Hx E. apply NI. rewrite <- E. apply in_map.
+  eapply Permutation_in; [apply fold_ins_perm | exact Hx].
+Qed.
+
+(** insertion-based merge: the result is strictly sorted as soon as all internal keys
+    are pairwise distinct (the sources need not even be sorted) *)
+Theorem merge_sorted_sorted_nodup srcs :
+  NoDup (map ik (concat srcs)) -> ssorted (merge_sorted srcs) = true.
+Proof.
+  induction srcs as [|s r IH]; intros ND; [reflexivity|].
+  cbn [concat] in ND.
+  assert (ssorted (merge_sorted r) = true) as HS.
+  { apply IH. rewrite map_app in ND. eapply NoDup_app_r'; eauto. }
+  unfold merge_sorted in *. cbn [fold_right]. apply fold_ins_ssorted; [exact HS|].
+  eapply Permutation_NoDup; [|exact ND].
+  apply Permutation_map. apply Permutation_app_head. apply Permutation_sym.
+  apply (merge_sorted_perm r).
+Qed.
+
+Lemma NoDup_app_intro {A} (a b : list A) :
+  NoDup a -> NoDup b -> (forall x, In x a -> In x b -> False) -> NoDup (a ++ b).
+Proof.
+  induction a as [|y a IH]; intros NA NB D; [exact NB|].
+  cbn [app]. inversion NA as [|? ? NI NA']; subst. constructor.
+  - intros HI. apply in_app_or in HI. destruct HI as [HI|HI]; [auto|].
+    apply (D y); [now left | exact HI].
+  - apply IH; auto. intros x HA HB. apply (D x); [now right | exact HB].
+Qed.
+
+Lemma ssorted_NoDup_ik l : ssorted l = true -> NoDup (map ik l).
+Proof.
+  induction l as [|e l IH]; intros HS; cbn [map]; constructor.
+  - intros HI. apply in_map_iff in HI. destruct HI as (x & E & HI).
+    pose proof (ssorted_head_lt _ _ _ HS HI) as L.
+    unfold ik in E. injection E as Ek Es.
+    rewrite ikey_ltb_irrefl' in L; [discriminate | congruence | congruence].
+  - apply IH. eapply ssorted_tail; eauto.
+Qed.
+
+(** internal keys pairwise distinct across sources *)
+Fixpoint disjoint_srcs (srcs : list (list entry)) : Prop :=
+  match srcs with
+  | [] => True
+  | s :: r => (forall a b, In a s -> In b (concat r) -> ik a <> ik b) /\ disjoint_srcs r
+  end.
+
+Lemma srcs_NoDup_ik srcs :
+  Forall (fun s => ssorted s = true) srcs -> disjoint_srcs srcs ->
+  NoDup (map ik (concat srcs)).
+Proof.
+  induction srcs as [|s r IH]; intros HF HD; [constructor|].
+  cbn [concat]. rewrite map_app. inversion HF as [|? ? Hs Hr]; subst.
+  destruct HD as [HD1 HD2]. apply NoDup_app_intro.
+  - now apply ssorted_NoDup_ik.
+  - auto.
+  - intros x HA HB. apply in_map_iff in HA, HB.
+    destruct HA as (a & <- & HA), HB as (b & E & HB). apply (HD1 a b HA HB). congruence.
+Qed.
+
+Theorem merge_sorted_sorted srcs :
+  Forall (fun s => ssorted s = true) srcs -> disjoint_srcs srcs ->
+  ssorted (merge_sorted srcs) = true.
+Proof. intros HF HD. apply merge_sorted_sorted_nodup. now apply srcs_NoDup_ik. Qed.
+
+Example merge_sorted_ex :
+  let ka := Examples.ka in let kb := Examples.kb in
+  let s1 := [Examples.V ka 9 [1]; Examples.V kb 4 [2]] in
+  let s2 := [Examples.T ka 10; Examples.V ka 3 [3]; Examples.V kb 7 [4]] in
+  ssorted s1 = true /\ ssorted s2 = true /\
+  merge_sorted [s1; s2]
+  = [Examples.T ka 10; Examples.V ka 9 [1]; Examples.V ka 3 [3]; Examples.V kb 7 [4];
+     Examples.V kb 4 [2]].
+Proof. vm_compute. auto. Qed.
+
+(** * Assumptions *)
+Print Assumptions cstream_examples.
+Print Assumptions cstream_top_view.
+Print Assumptions cstream_top_view_nofilter.
+Print Assumptions cstream_mvcc.
+Print Assumptions cstream_mvcc_tomb.
+Print Assumptions cstream_mvcc_tomb_hidden.
+Print Assumptions cstream_mvcc_view.
+Print Assumptions cstream_snapshot_above_W_refuted.
+Print Assumptions cstream_out_sorted.
+Print Assumptions cstream_out_keys.
+Print Assumptions cstream_replace_keeps_seq.
+Print Assumptions cstream_out_subseq.
+Print Assumptions cstream_out_in.
+Print Assumptions cstream_log_subseq.
+Print Assumptions cstream_filter_domain.
+Print Assumptions cstream_filter_domain_in.
+Print Assumptions cstream_log_exact.
+Print Assumptions cstream_log_exact_nontomb.
+Print Assumptions cstream_log_count.
+Print Assumptions merge_sorted_perm.
+Print Assumptions merge_sorted_sorted_nodup.
+Print Assumptions merge_sorted_sorted.
